@@ -26,7 +26,8 @@ RULE = ("one PRNG (VERIF_SEED) draws a DAG of 3-12 nodes (quick; up to 30 thorou
         "a 'zones' family builds memos `tracked + untrack(|| stale_memo + signal ...)` (several reads in one untrack zone, the memo "
         "pulled first) and writes the untracked sources; an 'immediate' family puts ImmediateEffects among the subscribers (they re-run "
         "and re-subscribe inside the marking phase of a write; oracle only); a 'deep' family reads the far end of chains of 270-450 "
-        "(thorough: up to 700) memos, a few links being small diamonds. "
+        "(thorough: up to 700) memos, a few links being small diamonds; a 'dynamic' family has memos (and effects) whose bodies "
+        "create further memos (ArcMemo / arena Memo) at run time, re-created by every run of their creator (oracle only). "
         "A case is non-trivial when some memo body ran at least twice; distinct = distinct case hash.")
 TRUSTED = [
     "Coq 8.16.1 kernel (coqc); no axioms: every theorem of Properties_C01.v is 'Closed under the global context'",
@@ -36,7 +37,9 @@ TRUSTED = [
     "modelled, not verified: RwLock/Arc/Weak semantics (single thread, no poisoning), the OBSERVER thread-local, "
     "arena storage of Memo/RwSignal/ReadSignal/WriteSignal (a disposed item drops its value and subscriber set; the harness "
     "reads a disposed handle with try_get and takes None as 0), i64 arithmetic without overflow",
-    "static graphs only: memos created inside other computations are not modelled",
+    "the Coq model has static graphs only; memos created inside other computations (a memo / effect body that creates memos "
+    "every time it runs: 'dynamic' family, templates instantiated at run time, each instance with an id of its own in the "
+    "trace) are checked by the Python oracle only (from-scratch recomputation of every read), not compared with the model",
     "ImmediateEffect is not part of the Coq model: the 'immediate' cases are checked by the Python oracle only; reads made "
     "inside the marking phase of a write (by an ImmediateEffect, its source check, or what they pull) are not checked: they "
     "see not-yet-marked memos by design; every read made after the write has returned is",
@@ -82,6 +85,16 @@ def _main_stream(rng, tier):
         prog = X.gen_program(rng, rng.randint(ne + 2, 9), ne, eff_kinds=(5,), allow_wr=False, p_untr=0.05, p_der=0.2)
         ops = X.gen_ops(rng, prog, rng.randint(6, 30), w=(0.45, 0.05, 0.5, 0.0, 0.0, 0.0))
         yield dict(case=C.norm([prog, ops]), kind="immediate", compare=False)
+    # memos created inside other computations: templates that a memo / effect body instantiates at run time, every
+    # time it runs (not modelled: oracle only)
+    for i in range(2500 if tier == "quick" else 25000):
+        we = rng.random() < 0.3
+        prog = X.gen_dynamic_program(rng, rng.choice([1, 1, 2]), with_effects=we)
+        if we:
+            ops = X.gen_ops(rng, prog, rng.randint(6, 30), w=(0.35, 0.04, 0.3, 0.13, 0.14, 0.04)) + [[4]]
+        else:
+            ops = X.gen_ops(rng, prog, rng.randint(6, 30), w=(0.42, 0.05, 0.53, 0, 0, 0))
+        yield dict(case=C.norm([prog, ops]), kind="dynamic", compare=False)
 
 
 def generate(rng, tier):
@@ -106,7 +119,7 @@ def nontrivial(item, model):
         if e[0] == 1:
             runs[e[1]] = runs.get(e[1], 0) + 1
     prog = item["case"][0]
-    return any(n >= 2 and prog[i][0] == X.MEMO for i, n in runs.items())
+    return any(n >= 2 and i < len(prog) and prog[i][0] == X.MEMO for i, n in runs.items())
 
 
 def coverage_extra(results):
